@@ -10,6 +10,7 @@ INFO = dict(
     "consumption policy per connection kind, blocking wait, gap-free non-overlapping steps, window = last w consumed messages) are evaluated on every real record, and the record is "
     "compared bit-exactly with the Lean machine; the same statements on 8 executions each of further graphs under perturbed thread schedules (incl. the exact-tie family). Non-trivial: the episode has >=1 exact tie (arrival == step start) or >=1 message that waited >=2 steps, and a window > 1",
     trusted=[
+        "Lean machine level (every schedule): exactly-once/in-order along the whole pipeline, FIFO and arrival recurrence of the recorded receive times (Async/Arrival.lean), gap-free step numbers, guard soundness",
         "harness/extract.py for the kernels of push_ts_input / push_expected_nonblocking / push_expected_blocking / push_ts_max / push_selection",
         "monitors: harness/monitors_async.py (independent of the Lean machine); correspondence: harness/asynccheck.py",
         "modelled, not verified: handler atomicity (see C02); on the wall clock only the record laws are evaluated (short real-time episodes, non-blocking connections), the Lean machine models the simulated clock",
